@@ -2,7 +2,7 @@
     Model.v transcribes pkg/obingslibrary (multimatch.go) and FilterBestMatch of pkg/obiapat/pattern.go. *)
 From Coq Require Import NArith ZArith List Bool Arith Permutation.
 Import ListNotations.
-From OBI.C12 Require Import Model Proofs.
+From OBI.C12 Require Import Model Proofs Rescue Round2.
 Local Open Scope nat_scope.
 
 (** ---- Closest*Tag: the fold over the Go map returns the UNIQUE nearest declared tag, whatever the iteration order ---- *)
@@ -310,6 +310,338 @@ Example C12_closest_tie_nonvacuous :
   levenshtein [107;105;116;116;101;110]%N [115;105;116;116;105;110;103]%N = 3.
 Proof. vm_compute. repeat split; reflexivity. Qed.
 
+(** ---- RESCUE extraction (@tag_delimiter + @tag_indels): what lookForRescueTag returns ---- *)
+(* on  pre x d^k1 tag d^k2 junk  (x <> d; tag, junk without d; 1 <= k1, k2 <= spacer; at most tag_indels delimiters missing next to
+   the primer; tag length within tag_indels of the declared length, declared length > tag_indels) it returns the tag *)
+Theorem C12_rescue_tag_spec : forall pre x d (k1 k2 : nat) tag junk tl border indel,
+  x <> d -> ~ In d tag -> ~ In d junk ->
+  (1 <= k1)%nat -> (Z.of_nat k1 <= border)%Z ->
+  (1 <= k2)%nat -> (Z.of_nat k2 <= border)%Z -> (border - Z.of_nat k2 <= indel)%Z ->
+  (tl - indel <= lenZ tag <= tl + indel)%Z -> (1 <= tl - indel)%Z ->
+  look_for_rescue_tag (pre ++ [x] ++ repeat d k1 ++ tag ++ repeat d k2 ++ junk) d tl border indel = tag.
+Proof. exact rescue_spec. Qed.
+
+(* whatever the fragment: the result is empty or a factor of the fragment whose length is within tag_indels of the declared length *)
+Theorem C12_rescue_tag_sound : forall s d tl border indel,
+  (0 <= border)%Z -> (0 <= indel <= tl)%Z ->
+  let r := look_for_rescue_tag s d tl border indel in
+  r = [] \/ ((exists a c, s = a ++ r ++ c) /\ (tl - indel <= lenZ r <= tl + indel)%Z).
+Proof. exact rescue_sound. Qed.
+
+(* canonical read, rescue mode on both sides: delimiter runs may have lost bases (inner run: at most tag_indels), the observed tags may
+   be longer or shorter than declared by at most tag_indels; the record carries the OBSERVED tags and the sample they identify
+   ([canon_record] looks (tagF, tagR) up under the declared matching mode) *)
+Theorem C12_canonical_read_rescue :
+  (forall (lib : list marker) (i : nat) (m : marker),
+  nth i lib dummy_marker = m ->
+  forall df dr : N,
+  m_fdelim m = df ->
+  m_rdelim m = dr ->
+  df <> 0%N ->
+  dr <> 0%N ->
+  comp (comp df) = df ->
+  comp (comp dr) = dr ->
+  (1 <= m_ftind m)%N ->
+  (1 <= m_rtind m)%N ->
+  (m_ftind m < m_ftl m)%N ->
+  (m_rtind m < m_rtl m)%N ->
+  forall k1f k2f k1r k2r : nat,
+  (1 <= k1f)%nat ->
+  Z.of_nat k1f <= Z.of_N (m_fsp m) ->
+  (1 <= k2f)%nat ->
+  Z.of_nat k2f <= Z.of_N (m_fsp m) ->
+  Z.of_N (m_fsp m) - Z.of_nat k2f <= Z.of_N (m_ftind m) ->
+  (1 <= k1r)%nat ->
+  Z.of_nat k1r <= Z.of_N (m_rsp m) ->
+  (1 <= k2r)%nat ->
+  Z.of_nat k2r <= Z.of_N (m_rsp m) ->
+  Z.of_N (m_rsp m) - Z.of_nat k2r <= Z.of_N (m_rtind m) ->
+  forall (flankL0 tagF pF bar pR tagR flankR0 : str) (xl yr : N),
+  xl <> df ->
+  comp (comp xl) = xl ->
+  comp yr <> dr ->
+  Z.of_N (m_ftl m) - Z.of_N (m_ftind m) <= lenZ tagF <= Z.of_N (m_ftl m) + Z.of_N (m_ftind m) ->
+  Z.of_N (m_rtl m) - Z.of_N (m_rtind m) <= lenZ tagR <= Z.of_N (m_rtl m) + Z.of_N (m_rtind m) ->
+  ~ In df tagF ->
+  ~ In dr tagR ->
+  pF <> nil ->
+  pR <> nil ->
+  bar <> nil ->
+  dna pR ->
+  dna tagR ->
+  forall k1 k2 : Z,
+  lib_hits 1 lib (canon_read (rfL df k1f flankL0 xl) tagF (rsF df k2f) pF bar pR (rsR dr k2r) tagR (rfR dr k1r flankR0 yr)) =
+  canon_hits i (rfL df k1f flankL0 xl) tagF (rsF df k2f) pF bar pR k1 k2 ->
+  demux lib (canon_read (rfL df k1f flankL0 xl) tagF (rsF df k2f) pF bar pR (rsR dr k2r) tagR (rfR dr k1r flankR0 yr)) =
+  Recs (canon_record i m tagF pF bar pR tagR k1 k2 true :: nil))%Z.
+Proof. exact canonical_read_rescue. Qed.
+
+(* both strands *)
+Theorem C12_strand_symmetry_rescue :
+  (forall (lib : list marker) (i : nat) (m : marker),
+  nth i lib dummy_marker = m ->
+  forall df dr : N,
+  m_fdelim m = df ->
+  m_rdelim m = dr ->
+  df <> 0%N ->
+  dr <> 0%N ->
+  comp (comp df) = df ->
+  comp (comp dr) = dr ->
+  (1 <= m_ftind m)%N ->
+  (1 <= m_rtind m)%N ->
+  (m_ftind m < m_ftl m)%N ->
+  (m_rtind m < m_rtl m)%N ->
+  forall k1f k2f k1r k2r : nat,
+  (1 <= k1f)%nat ->
+  Z.of_nat k1f <= Z.of_N (m_fsp m) ->
+  (1 <= k2f)%nat ->
+  Z.of_nat k2f <= Z.of_N (m_fsp m) ->
+  Z.of_N (m_fsp m) - Z.of_nat k2f <= Z.of_N (m_ftind m) ->
+  (1 <= k1r)%nat ->
+  Z.of_nat k1r <= Z.of_N (m_rsp m) ->
+  (1 <= k2r)%nat ->
+  Z.of_nat k2r <= Z.of_N (m_rsp m) ->
+  Z.of_N (m_rsp m) - Z.of_nat k2r <= Z.of_N (m_rtind m) ->
+  forall (flankL0 tagF pF bar pR tagR flankR0 : str) (xl yr : N),
+  xl <> df ->
+  comp (comp xl) = xl ->
+  comp yr <> dr ->
+  Z.of_N (m_ftl m) - Z.of_N (m_ftind m) <= lenZ tagF <= Z.of_N (m_ftl m) + Z.of_N (m_ftind m) ->
+  Z.of_N (m_rtl m) - Z.of_N (m_rtind m) <= lenZ tagR <= Z.of_N (m_rtl m) + Z.of_N (m_rtind m) ->
+  ~ In df tagF ->
+  ~ In dr tagR ->
+  pF <> nil ->
+  pR <> nil ->
+  bar <> nil ->
+  dna pF ->
+  dna pR ->
+  dna tagF ->
+  dna tagR ->
+  dna bar ->
+  forall k1 k2 : Z,
+  lib_hits 1 lib (canon_read (rfL df k1f flankL0 xl) tagF (rsF df k2f) pF bar pR (rsR dr k2r) tagR (rfR dr k1r flankR0 yr)) =
+  canon_hits i (rfL df k1f flankL0 xl) tagF (rsF df k2f) pF bar pR k1 k2 ->
+  lib_hits 1 lib (rc (canon_read (rfL df k1f flankL0 xl) tagF (rsF df k2f) pF bar pR (rsR dr k2r) tagR (rfR dr k1r flankR0 yr))) =
+  canon_hits_rc i (rfL df k1f flankL0 xl) tagF (rsF df k2f) pF bar pR (rsR dr k2r) tagR (rfR dr k1r flankR0 yr) k1 k2 ->
+  demux lib (canon_read (rfL df k1f flankL0 xl) tagF (rsF df k2f) pF bar pR (rsR dr k2r) tagR (rfR dr k1r flankR0 yr)) =
+  Recs (canon_record i m tagF pF bar pR tagR k1 k2 true :: nil) /\
+  demux lib (rc (canon_read (rfL df k1f flankL0 xl) tagF (rsF df k2f) pF bar pR (rsR dr k2r) tagR (rfR dr k1r flankR0 yr))) =
+  Recs (canon_record i m tagF pF bar pR tagR k1 k2 false :: nil))%Z.
+Proof. exact strand_symmetry_rescue. Qed.
+
+(* the same for ANY matcher producing the two intended hits (e.g. re-aligned indel spans) *)
+Theorem C12_canonical_rescue_any_matcher :
+  (forall (lib : list marker) (i : nat) (m : marker),
+  nth i lib dummy_marker = m ->
+  forall df dr : N,
+  m_fdelim m = df ->
+  m_rdelim m = dr ->
+  df <> 0%N ->
+  dr <> 0%N ->
+  comp (comp df) = df ->
+  comp (comp dr) = dr ->
+  (1 <= m_ftind m)%N ->
+  (1 <= m_rtind m)%N ->
+  (m_ftind m < m_ftl m)%N ->
+  (m_rtind m < m_rtl m)%N ->
+  forall k1f k2f k1r k2r : nat,
+  (1 <= k1f)%nat ->
+  Z.of_nat k1f <= Z.of_N (m_fsp m) ->
+  (1 <= k2f)%nat ->
+  Z.of_nat k2f <= Z.of_N (m_fsp m) ->
+  Z.of_N (m_fsp m) - Z.of_nat k2f <= Z.of_N (m_ftind m) ->
+  (1 <= k1r)%nat ->
+  Z.of_nat k1r <= Z.of_N (m_rsp m) ->
+  (1 <= k2r)%nat ->
+  Z.of_nat k2r <= Z.of_N (m_rsp m) ->
+  Z.of_N (m_rsp m) - Z.of_nat k2r <= Z.of_N (m_rtind m) ->
+  forall (flankL0 tagF pF bar pR tagR flankR0 : str) (xl yr : N),
+  xl <> df ->
+  comp (comp xl) = xl ->
+  comp yr <> dr ->
+  Z.of_N (m_ftl m) - Z.of_N (m_ftind m) <= lenZ tagF <= Z.of_N (m_ftl m) + Z.of_N (m_ftind m) ->
+  Z.of_N (m_rtl m) - Z.of_N (m_rtind m) <= lenZ tagR <= Z.of_N (m_rtl m) + Z.of_N (m_rtind m) ->
+  ~ In df tagF ->
+  ~ In dr tagR ->
+  pF <> nil ->
+  pR <> nil ->
+  bar <> nil ->
+  dna pF ->
+  dna pR ->
+  dna tagF ->
+  dna tagR ->
+  dna bar ->
+  forall k1 k2 : Z,
+  demux_hits lib (canon_read (rfL df k1f flankL0 xl) tagF (rsF df k2f) pF bar pR (rsR dr k2r) tagR (rfR dr k1r flankR0 yr))
+  (canon_hits i (rfL df k1f flankL0 xl) tagF (rsF df k2f) pF bar pR k1 k2) = Recs (canon_record i m tagF pF bar pR tagR k1 k2 true :: nil) /\
+  demux_hits lib (rc (canon_read (rfL df k1f flankL0 xl) tagF (rsF df k2f) pF bar pR (rsR dr k2r) tagR (rfR dr k1r flankR0 yr)))
+  (canon_hits_rc i (rfL df k1f flankL0 xl) tagF (rsF df k2f) pF bar pR (rsR dr k2r) tagR (rfR dr k1r flankR0 yr) k1 k2) =
+  Recs (canon_record i m tagF pF bar pR tagR k1 k2 false :: nil))%Z.
+Proof. exact canonical_rescue_any_matcher. Qed.
+
+(* rescue mode, delimiter 't', spacer 2, one tag indel allowed, matching = indel: forward tag with a deleted base and one delimiter lost
+   next to the primer, reverse tag with an inserted base and a shortened outer run; both strands *)
+Definition ex_mr : marker := mkM [103;99;97;116;99;103;97;116;103;99;97;97;103;116;99;99;116;103]%N [99;116;97;103;97;116;103;99;103;97;97;116;116;99;103;116;99;99]%N 4 4 2 2 2 2 2 2 116 116 1 1
+   [([97;97;99;99]%N, [103;103;97;97]%N, 7%N); ([99;99;103;103]%N, [99;99;99;97]%N, 8%N)].
+Example C12_canonical_rescue_nonvacuous :
+  let lib := [ex_mr] in
+  let fl := rfL 116 2 [103;103]%N 103 in let sf := rsF 116 1 in let sr := rsR 116 2 in let fr := rfR 116 1 [97]%N 99 in
+  let rd := canon_read fl [97;97;99]%N sf [103;99;97;116;99;103;97;116;103;99;97;97;103;116;99;99;116;103]%N [103;97;116;116;97;99;97;103;97;116;116;97;99;97;103;97;116;116;97;99;97;99;99;99;99]%N [99;116;97;103;97;116;103;99;103;97;97;116;116;99;103;116;99;99]%N sr [103;103;97;97;99]%N fr in
+  lib_hits 1 lib rd = canon_hits 0 fl [97;97;99]%N sf [103;99;97;116;99;103;97;116;103;99;97;97;103;116;99;99;116;103]%N [103;97;116;116;97;99;97;103;97;116;116;97;99;97;103;97;116;116;97;99;97;99;99;99;99]%N [99;116;97;103;97;116;103;99;103;97;97;116;116;99;103;116;99;99]%N 0 0 /\
+  lib_hits 1 lib (rc rd) = canon_hits_rc 0 fl [97;97;99]%N sf [103;99;97;116;99;103;97;116;103;99;97;97;103;116;99;99;116;103]%N [103;97;116;116;97;99;97;103;97;116;116;97;99;97;103;97;116;116;97;99;97;99;99;99;99]%N [99;116;97;103;97;116;103;99;103;97;97;116;116;99;103;116;99;99]%N sr [103;103;97;97;99]%N fr 0 0 /\
+  demux lib rd = Recs [mkR [103;97;116;116;97;99;97;103;97;116;116;97;99;97;103;97;116;116;97;99;97;99;99;99;99]%N true 0 [103;99;97;116;99;103;97;116;103;99;97;97;103;116;99;99;116;103]%N [99;116;97;103;97;116;103;99;103;97;97;116;116;99;103;116;99;99]%N 0 0 [97;97;99]%N [103;103;97;97;99]%N (Some 7%N) false] /\
+  demux lib (rc rd) = Recs [mkR [103;97;116;116;97;99;97;103;97;116;116;97;99;97;103;97;116;116;97;99;97;99;99;99;99]%N false 0 [103;99;97;116;99;103;97;116;103;99;97;97;103;116;99;99;116;103]%N [99;116;97;103;97;116;103;99;103;97;97;116;116;99;103;116;99;99]%N 0 0 [97;97;99]%N [103;103;97;97;99]%N (Some 7%N) false].
+Proof. vm_compute. repeat split; reflexivity. Qed.
+
+(** ================================ round 2 ================================ *)
+
+(** ---- Closest*Tag under EVERY iteration order of the sample map ---- *)
+(* [perms] (Model.v) enumerates exactly the permutations: one [CClosestAll] correspondence case compares the answer observed on the
+   code with the model folded over every order of the declared tags *)
+Theorem C12_perms_are_the_permutations : forall (A : Type) (l p : list A), In p (perms l) <-> Permutation l p.
+Proof. exact perms_iff. Qed.
+
+Theorem C12_closest_same_on_every_enumerated_order : forall (dist : str -> str -> nat) (t : str) (tags p : list str),
+  ~ In [] tags -> In p (perms tags) -> closest dist p t = closest dist tags t.
+Proof. exact closest_perms. Qed.
+
+(* what a green [CClosestAll] case means *)
+Theorem C12_closest_all_orders_case : forall dist t tags ans,
+  forallb (fun p => let r := closest dist p t in str_eqb (fst r) (fst ans) && optN_eqb (option_map N.of_nat (snd r)) (snd ans)) (perms tags) = true ->
+  forall tags', Permutation tags tags' ->
+  fst (closest dist tags' t) = fst ans /\ option_map N.of_nat (snd (closest dist tags' t)) = snd ans.
+Proof. exact closest_all_orders. Qed.
+
+(** ---- BY DESIGN: "unique nearest tag" has no upper bound on the distance. A tag that shares no base with the declared tag is still
+    proposed (and the read assigned) as soon as that declared tag is strictly nearer than every other one (C12_closest_unique);
+    for every n there is such a case at Hamming distance n = the whole tag length ---- *)
+Theorem C12_nearest_tag_has_no_distance_bound : forall n, 1 <= n ->
+  exists tags t u, In u tags /\ hamming u t = n /\ n = length t /\ propose 1%N tags t = u.
+Proof. exact nearest_unbounded. Qed.
+
+(** ---- ANY matcher (substitution windows, or the re-aligned spans of the indel matcher whose length differs from the primer's):
+    a record is cut exactly at the spans of its own (from, match) hit pair ---- *)
+Theorem C12_record_between_spans : forall lib s hits rs r,
+  demux_hits lib s hits = Recs rs -> In r rs ->
+  exists f h, In (f, h) (pair_hits (sort_hits hits) None) /\ In f hits /\ In h hits /\ record_of_pair s f h r.
+Proof. exact record_between_spans. Qed.
+
+(** ---- the amplicons of a chimeric read are independent (seed C12-B: one annotation map reused across amplicons): the records
+    emitted for a hit pair are those of the read in which these two hits are the only ones ---- *)
+Theorem C12_amplicons_independent : forall lib s hits,
+  records_of (demux_hits lib s hits) =
+  flat_map (fun fh => records_of (demux_hits lib s [fst fh; snd fh])) (pair_hits (sort_hits hits) None).
+Proof. exact amplicons_independent. Qed.
+
+Theorem C12_amplicon_records_do_not_depend_on_the_other_hits : forall lib s hits hits' f h,
+  In (f, h) (pair_hits (sort_hits hits) None) -> In (f, h) (pair_hits (sort_hits hits') None) ->
+  forall r, In r (emit lib s (f, h)) ->
+  In r (records_of (demux_hits lib s hits)) /\ In r (records_of (demux_hits lib s hits')) /\
+  In r (records_of (demux_hits lib s [f; h])).
+Proof. exact amplicon_records_do_not_depend_on_the_other_hits. Qed.
+
+(** ---- hits that start at the same position keep their collection order (markers in primer order - fixed in round 2 -, then forward,
+    complemented reverse, reverse, complemented forward pattern): the records are a function of (sheet, read) ---- *)
+Theorem C12_sort_hits_stable : forall b l, filter (at_b b) (sort_hits l) = filter (at_b b) l.
+Proof. exact sort_hits_stable. Qed.
+
+(* primer occurrences with an inserted base (forward) and a deleted base (reverse): spans of length 19 and 17 for 18-base primers *)
+Example C12_primer_indels_nonvacuous :
+  let pF := [103;99;97;116;99;103;97;116;103;116;99;97;97;103;116;99;99;116;103]%N in let pR := [99;116;97;103;97;116;103;103;97;97;116;116;99;103;116;99;99]%N in
+  let bar := [103;97;116;116;97;99;97;103;97;116;116;97;99;97;103;97;116;116;97;99;97;99;99;99;99]%N in
+  demux_hits [ex_m] (canon_read [116;116]%N [97;97;99;99]%N [99;97]%N pF bar pR [103]%N [103;103;116;116]%N [97]%N)
+             (canon_hits 0 [116;116]%N [97;97;99;99]%N [99;97]%N pF bar pR 1 1) =
+    Recs [mkR bar true 0 pF pR 1 1 [97;97;99;99]%N [103;103;116;116]%N (Some 7%N) false] /\
+  length pF = 19 /\ length pR = 17 /\ length (m_fwd ex_m) = 18 /\ length (m_rev ex_m) = 18.
+Proof. vm_compute. repeat split; reflexivity. Qed.
+
+(* a chimeric read: a good amplicon (sample 7) and one whose tag pair is not declared, in both orders *)
+Example C12_chimera_nonvacuous :
+  let good := [116;116;97;97;99;99;99;97;103;99;97;116;99;103;97;116;103;99;97;97;103;116;99;99;116;103;103;97;116;116;97;99;97;103;97;116;116;97;99;97;103;97;116;116;97;99;97;99;99;99;99;103;103;97;99;103;97;97;116;116;99;103;99;97;116;99;116;97;103;103;97;97;99;99;97]%N in
+  let bad := [116;116;97;97;99;99;99;97;103;99;97;116;99;103;97;116;103;99;97;97;103;116;99;99;116;103;99;99;97;116;103;99;97;116;103;99;97;97;97;103;103;97;99;103;97;97;116;116;99;103;99;97;116;99;116;97;103;103;116;97;99;99;97]%N in
+  let view o := map (fun r => (r_rt r, r_sample r, r_err r)) (records_of o) in
+  view (demux [ex_m] (good ++ bad)) = [([103;103;116;116]%N, Some 7%N, false); ([103;103;116;97]%N, None, true)] /\
+  view (demux [ex_m] (bad ++ good)) = [([103;103;116;97]%N, None, true); ([103;103;116;116]%N, Some 7%N, false)] /\
+  records_of (demux [ex_m] (good ++ bad)) = records_of (demux [ex_m] good) ++ records_of (demux [ex_m] bad).
+Proof. vm_compute. repeat split; reflexivity. Qed.
+
+
+(** ---- ANY matcher, ANY extraction mode ---- *)
+(* delimited tags with any matcher producing the two intended hits (primer indels), both strands *)
+Theorem C12_canonical_delimited_any_matcher :
+  (forall (lib : list marker) (i : nat) (m : marker),
+  nth i lib dummy_marker = m ->
+  forall (df dr : N) (nf nr : nat),
+  m_fdelim m = df ->
+  m_rdelim m = dr ->
+  df <> 0%N ->
+  dr <> 0%N ->
+  comp (comp df) = df ->
+  comp (comp dr) = dr ->
+  m_ftind m = 0%N ->
+  m_rtind m = 0%N ->
+  Z.of_N (m_fsp m) = Z.of_nat nf ->
+  Z.of_N (m_rsp m) = Z.of_nat nr ->
+  (1 <= nf)%nat ->
+  (1 <= nr)%nat ->
+  forall flankL tagF pF bar pR tagR flankR : str,
+  lenZ tagF = Z.of_N (m_ftl m) ->
+  lenZ tagR = Z.of_N (m_rtl m) ->
+  ~ In df tagF ->
+  ~ In dr tagR ->
+  pF <> nil ->
+  pR <> nil ->
+  bar <> nil ->
+  dna pF ->
+  dna pR ->
+  dna tagF ->
+  dna tagR ->
+  dna bar ->
+  forall k1 k2 : Z,
+  demux_hits lib (canon_read (fL df flankL) tagF (sF df nf) pF bar pR (sR dr nr) tagR (fR dr flankR))
+  (canon_hits i (fL df flankL) tagF (sF df nf) pF bar pR k1 k2) = Recs (canon_record i m tagF pF bar pR tagR k1 k2 true :: nil) /\
+  demux_hits lib (rc (canon_read (fL df flankL) tagF (sF df nf) pF bar pR (sR dr nr) tagR (fR dr flankR)))
+  (canon_hits_rc i (fL df flankL) tagF (sF df nf) pF bar pR (sR dr nr) tagR (fR dr flankR) k1 k2) =
+  Recs (canon_record i m tagF pF bar pR tagR k1 k2 false :: nil))%Z.
+Proof. exact canonical_delimited_any_matcher. Qed.
+
+(* whatever the extraction modes of the two sides (fixed, delimited, rescue - possibly different on the two sides) and whatever the
+   matcher: if the two extractors return the tags next to the two hits, the record is the canonical one; on either strand *)
+Theorem C12_canonical_read_any_extractor :
+  (forall (lib : list marker) (i : nat) (m : marker),
+  nth i lib dummy_marker = m ->
+  forall flankL tagF spF pF bar pR spR tagR flankR : str,
+  pF <> nil ->
+  pR <> nil ->
+  bar <> nil ->
+  dna pR ->
+  forall k1 k2 : Z,
+  begin_tag (canon_read flankL tagF spF pF bar pR spR tagR flankR) (cb1 flankL tagF spF) (fside m) = tagF ->
+  end_tag (canon_read flankL tagF spF pF bar pR spR tagR flankR) (ce2 flankL tagF spF pF bar pR) (rside m) = tagR ->
+  demux_hits lib (canon_read flankL tagF spF pF bar pR spR tagR flankR) (canon_hits i flankL tagF spF pF bar pR k1 k2) =
+  Recs (canon_record i m tagF pF bar pR tagR k1 k2 true :: nil))%Z.
+Proof. exact canonical_forward_gen. Qed.
+
+Theorem C12_strand_symmetry_any_extractor :
+  (forall (lib : list marker) (i : nat) (m : marker),
+  nth i lib dummy_marker = m ->
+  forall flankL tagF spF pF bar pR spR tagR flankR : str,
+  pF <> nil ->
+  pR <> nil ->
+  bar <> nil ->
+  dna pF ->
+  dna pR ->
+  dna tagR ->
+  dna bar ->
+  forall k1 k2 : Z,
+  end_tag (rc (canon_read flankL tagF spF pF bar pR spR tagR flankR)) (cL flankL tagF spF pF bar pR spR tagR flankR - cb1 flankL tagF spF)
+  (fside m) = tagF ->
+  begin_tag (rc (canon_read flankL tagF spF pF bar pR spR tagR flankR))
+  (cL flankL tagF spF pF bar pR spR tagR flankR - ce2 flankL tagF spF pF bar pR) (rside m) = tagR ->
+  demux_hits lib (rc (canon_read flankL tagF spF pF bar pR spR tagR flankR)) (canon_hits_rc i flankL tagF spF pF bar pR spR tagR flankR k1 k2) =
+  Recs (canon_record i m tagF pF bar pR tagR k1 k2 false :: nil))%Z.
+Proof. exact canonical_reverse_gen. Qed.
+
 Print Assumptions C12_closest_unique.
 Print Assumptions C12_closest_none_iff_tie.
 Print Assumptions C12_closest_order_independent.
@@ -340,3 +672,19 @@ Print Assumptions C12_hits_from_windows_forward.
 Print Assumptions C12_hits_from_windows_reverse.
 Print Assumptions C12_canonical_read_windows.
 Print Assumptions C12_strand_symmetry_windows.
+Print Assumptions C12_rescue_tag_spec.
+Print Assumptions C12_rescue_tag_sound.
+Print Assumptions C12_canonical_read_rescue.
+Print Assumptions C12_strand_symmetry_rescue.
+Print Assumptions C12_canonical_rescue_any_matcher.
+Print Assumptions C12_perms_are_the_permutations.
+Print Assumptions C12_closest_same_on_every_enumerated_order.
+Print Assumptions C12_closest_all_orders_case.
+Print Assumptions C12_nearest_tag_has_no_distance_bound.
+Print Assumptions C12_record_between_spans.
+Print Assumptions C12_amplicons_independent.
+Print Assumptions C12_amplicon_records_do_not_depend_on_the_other_hits.
+Print Assumptions C12_sort_hits_stable.
+Print Assumptions C12_canonical_delimited_any_matcher.
+Print Assumptions C12_canonical_read_any_extractor.
+Print Assumptions C12_strand_symmetry_any_extractor.
